@@ -82,6 +82,18 @@ func List() (r)
   pure
   ensures [C20] len(r) == cnt(store, "")
   ensures [C20] forall j Int {r[j]} :: 0 <= j && j < len(r) ==> r[j] == skey(store, "", j)
+
+// the search prefix i2b(epoch) (++ cid) is exact only among epochs whose encodings have the same length: the variable-length
+// epoch field lets it match ids stored for another epoch (known finding); ids are i2b(epoch) ++ cid: 32 ++ 24 bytes of the key hash
+pure enc(x Int) Bytes = x == 0 ? "" :
+      (x < 128 ? byte(x) :
+      (x < 32768 ? byte(x % 256) ++ byte(x / 256) :
+      (x < 8388608 ? byte(x % 256) ++ byte((x / 256) % 256) ++ byte(x / 65536) :
+      (x < 2147483648 ? byte(x % 256) ++ byte((x / 256) % 256) ++ byte((x / 65536) % 256) ++ byte(x / 16777216) :
+        byte(x % 256) ++ byte((x / 256) % 256) ++ byte((x / 65536) % 256) ++ byte((x / 16777216) % 256) ++ byte(x / 4294967296)))))
+pure encLen(x Int) Int = x == 0 ? 0 : (x < 128 ? 1 : (x < 32768 ? 2 : (x < 8388608 ? 3 : (x < 2147483648 ? 4 : 5))))
+lemma AuditListByEpochExact [C20] finding F_C20_audit_epoch_prefix (encLen(e) != encLen(f)) : forall e Int, f Int, p Bytes :: 0 <= e && e < 4294967296 && 0 <= f && f < 4294967296 && len(p) == 56
+        && prefix(enc(e), enc(f) ++ p) ==> e == f
 @*/
 
 /*@
